@@ -220,6 +220,9 @@ struct Edge {
   std::vector<Node*> validations_;
   Node* dyndep_ = nullptr;
   BindingEnv* env_ = nullptr;
+  /// True when the build statement has no bindings of its own, so that
+  /// |env_| is the enclosing (file) scope itself rather than a child of it.
+  bool env_is_enclosing_scope_ = false;
   size_t id_ = 0;
   int64_t critical_path_weight_ = -1;
 
